@@ -1,5 +1,7 @@
 import PycsepVerif.Drive.C15
 import PycsepVerif.Model.TimeCalls
+import PycsepVerif.Model.Strptime
+import PycsepVerif.Drive.C18
 /-! driver ops of property C15, round 4 (call sites of the conversions; `Model/TimeCalls.lean`).
     c15_scale <s,e,t,s,e,t,…>          scale_to_test_date per triple (µs): `self` | `<n/d>` | `ZeroDivisionError`
     c15_stmt  <statement> <t,t,…|->    datetime statement of filter (blank ↦ `_`): `err` | `<kept,…|->`
@@ -46,5 +48,12 @@ def handle : List String → Option String
   | ["c15_parseg", codes, s] => some (match (parseList? parseInt? codes).bind fmtG? with
       | some fmt => showOpt showInt (strptimeG fmt (unesc s))
       | none => "bad-op")
+  -- c15_strp <dt|epoch> <hex of the format> <hex of the string> : strptime_to_utc_datetime / _epoch with any format
+  --   (general backtracking matcher of Model/Strptime.lean); `none` = the call raises
+  | ["c15_strp", kind, hf, hs] => some (match Drive.C18.fromHex? (if hf = "-" then "" else hf), Drive.C18.fromHex? (if hs = "-" then "" else hs) with
+      | some f, some s =>
+        if kind = "dt" then showOpt showInt (strptimeToUtcDatetimeStr f.toList s.toList)
+        else showOpt showInt (strptimeToUtcEpochStr f.toList s.toList)
+      | _, _ => "bad-op")
   | _ => none
 end Drive.C15b
